@@ -385,3 +385,111 @@ eng_prop("C08", ["upg"], nq=90)
 eng_prop("C11", ["poll"], nq=90)
 eng_prop("C12", ["life", "poll"])
 eng_prop("C18", ["flow"], nq=90)
+
+
+# ----------------------------------------------------------------------- C05
+RT_ATTACH = '{"none","serveropts","path-slash","path-noslash","custom","notrailing"}'
+RT_SHAPES = '{"exact","noslash","sub","subslash","dot","enddot","dotdot","enddotdot","up","dbl","case","other","prefixonly"}'
+
+
+def rt_cfg(mode, quick, emit, inv="TableOK RouteOK"):
+    if quick:
+        dom = ('Methods = {"GET","POST"} Transports = {"polling","websocket","webtransport","bogus","absent"}\n'
+               ' Sids = {"absent","unknown","known-same","known-other","closed"} Eios = {"4","3","absent"} Origins = {"ok","ctl"}\n'
+               ' Upgrades = {TRUE, FALSE} Hooks = {"none","deny"} Mws = {"none","fail"} Enabled = {"pw","p"} Eio3s = {TRUE, FALSE}\n')
+    else:
+        dom = ('Methods = {"GET","POST","PUT"} Transports = {"polling","websocket","webtransport","bogus","absent","repeated"}\n'
+               ' Sids = {"absent","unknown","known-same","known-other","closed"} Eios = {"4","3","absent","garbage"} Origins = {"ok","ctl"}\n'
+               ' Upgrades = {TRUE, FALSE} Hooks = {"none","allow","deny"} Mws = {"none","ok","fail"} Enabled = {"pw","p","w"} Eio3s = {TRUE, FALSE}\n')
+    return ("SPECIFICATION Spec\nCONSTANTS Attach = %s\n Shapes = %s\n %s Mode = \"%s\" Emit = %s\nINVARIANTS %s\n"
+            % (RT_ATTACH, RT_SHAPES, dom, mode, emit, inv))
+
+
+def tlc_cells(ctx, module, cfgtext, name, marker="CELL "):
+    d = M.tlc_dir(ctx, "c_" + name)
+    M.write_cfg(d, name, cfgtext)
+    rc, out = M.sh(["tlc", "-workers", "1", "-metadir", os.path.join(d, "meta"), "-config", name + ".cfg", module + ".tla"],
+                   cwd=d, timeout=900, env={"JAVA_TOOL_OPTIONS": "-Xss512m"})
+    cells = []
+    for line in out.splitlines():
+        line = line.strip()
+        if line.startswith('"' + marker):
+            cells.append(json.loads(json.loads(line)[len(marker):]))
+    if not cells:
+        open(os.path.join(d, "tlc.out"), "w").write(out)
+        raise M.Inconclusive("no cells from TLC (%s)" % d)
+    import shutil
+    shutil.rmtree(os.path.join(d, "meta"), ignore_errors=True)
+    return cells
+
+
+@prop("C05")
+def c05(ctx):
+    q = ctx.quick
+    M.tlc_model(ctx, "Routing", rt_cfg("route", q, "FALSE"), "rt_route")
+    M.tlc_model(ctx, "Routing", rt_cfg("admit", q, "FALSE"), "rt_admit", timeout=1500)
+    cells = tlc_cells(ctx, "Routing", rt_cfg("route", q, "TRUE", "EmitCell"), "route")
+    cells += tlc_cells(ctx, "Routing", rt_cfg("admit", q, "TRUE", "EmitCell"), "admit")
+    ctx.extra["cells"] = len(cells)
+    trace, summ = M.go_family(ctx, "rt", behaviours=[cells], timeout=3000)
+    mon = rt_cfg("admit", q, "FALSE", "TableOK").replace("SPECIFICATION Spec", "SPECIFICATION MSpec").replace("INVARIANTS TableOK\n", "") \
+        + 'CONSTANT TraceFile = "trace.ndjson"\nCHECK_DEADLOCK FALSE\n'
+    viols, lines = M.tlc_trace(ctx, "RoutingMon", mon, "rt", trace, timeout=3000)
+    info = ctx.last_nonconf[0] if ctx.last_nonconf else {}
+    ctx.extra["cells_checked"] = info.get("cells", 0)
+    ctx.extra["cells_unspecified_by_the_documents"] = info.get("unspecified", 0)
+    ctx.traces = info.get("cells", 0)
+    ctx.events = lines
+    evs = M.read_trace(trace)
+    ctx.samples = [e for e in evs if e["e"] == "rt.cell"][:3]
+    ctx.extra["distinct_nontrivial"] = info.get("cells", 0) - info.get("unspecified", 0)
+    for v in viols:
+        c = v.get("cell", {})
+        v["sig"] = "%s:%s" % (c.get("attach"), c.get("shape")) if c.get("kind") == "route" else "admit:%s" % (v.get("want", {}).get("code"))
+    M.classify(ctx, viols)
+    ctx.assumptions = ["the decision table is written from README + property text; cells the documents leave open (501 for upgrades with websocket disabled, "
+                       "repeated query parameter, non-GET upgrade, ...) accept any outcome and are counted separately",
+                       "host-based mux patterns and several mounts on one HttpServer are not part of the property"]
+    return M.finish(ctx, rule="one case = one cell of Routing.tla (attach options x path shape, or method x transport x sid x EIO x Origin x upgrade x hook x "
+                    "middleware x enabled transports x allowEIO3) executed on a fresh real server", exhaustive=True, evs=evs)
+
+
+# ----------------------------------------------------------------------- C06
+def hs_cfg(quick, emit, inv="TableOK"):
+    if quick:
+        dom = ('PIs = {25000, 300} PTs = {20000} MaxPayloads = {1000000, 5000} EnabledSets = {"p","pw","pwt","w"} AllowUpgrades = {TRUE, FALSE}\n'
+               ' Eio3s = {TRUE, FALSE} Initials = {"none","text","binary"} Transports = {"polling","websocket"} Eios = {"4","3","absent"} B64s = {FALSE, TRUE}\n')
+    else:
+        dom = ('PIs = {25000, 300} PTs = {20000, 200} MaxPayloads = {1000000, 5000} EnabledSets = {"p","pw","pwt","pt","w"} AllowUpgrades = {TRUE, FALSE}\n'
+               ' Eio3s = {TRUE, FALSE} Initials = {"none","text","binary"} Transports = {"polling","websocket"} Eios = {"4","3","absent"} B64s = {FALSE, TRUE}\n')
+    return "SPECIFICATION Spec\nCONSTANTS %s Emit = %s\nINVARIANTS %s\n" % (dom, emit, inv)
+
+
+@prop("C06")
+def c06(ctx):
+    q = ctx.quick
+    M.tlc_model(ctx, "Handshake", hs_cfg(q, "FALSE"), "hs_table")
+    cells = tlc_cells(ctx, "Handshake", hs_cfg(q, "TRUE", "EmitCell"), "hs")
+    if q:
+        import random
+        random.Random(ctx.seed).shuffle(cells)
+        cells = cells[:700]
+    ctx.extra["cells"] = len(cells)
+    trace, summ = M.go_family(ctx, "hs", behaviours=[cells], timeout=3000)
+    mon = hs_cfg(q, "FALSE").replace("SPECIFICATION Spec", "SPECIFICATION MSpec").replace("INVARIANTS TableOK\n", "") \
+        + 'CONSTANT TraceFile = "trace.ndjson"\nCHECK_DEADLOCK FALSE\n'
+    viols, lines = M.tlc_trace(ctx, "HandshakeMon", mon, "hs", trace, timeout=3000)
+    info = ctx.last_nonconf[0] if ctx.last_nonconf else {}
+    ctx.traces = info.get("cells", 0)
+    ctx.events = lines
+    evs = M.read_trace(trace)
+    ctx.samples = [e for e in evs if e["e"] == "hs.cell"][:3]
+    ctx.extra["distinct_nontrivial"] = info.get("cells", 0)
+    for v in viols:
+        o, c = v.get("obs", {}), v.get("cell", {})
+        v["sig"] = "initial:%s->%s:n%s" % (c.get("initial"), o.get("initial"), v.get("ordinal")) if o.get("initial") != c.get("initial") else "other"
+    M.classify(ctx, viols)
+    ctx.assumptions = ["WebTransport handshakes are not driven here (covered at the framing layer); webtransport only appears as an enabled upgrade target",
+                       "quick tier samples 700 cells of the lattice with VERIF_SEED; thorough runs the whole lattice"]
+    return M.finish(ctx, rule="one case = the n-th (n=1..3) handshake of a fresh server configured as one cell of Handshake.tla; open packet, first "
+                    "message, connection events, revision, payload format and heartbeat mode observed", exhaustive=not q, evs=evs)
